@@ -167,3 +167,29 @@ void h_C17_shift_days(void)
 	if (b == 1U) { SENTINEL("shift into the previous year"); }
 	SENTINEL("shift days");
 }
+
+/* MONTHLY;INTERVAL=n;BYMONTH=v: the reachability test of rrul_fill_mly.
+ * gcd12 is the real function; the test expression is the one line of the
+ * filler that uses it (quoted here, the filler's main loop is not under
+ * contract).  Lemma: the test passes iff month v is reached from month m in
+ * steps of INTERVAL months (within 12 steps, the cycle length). */
+void h_C09_gcd12(void)
+{
+	IN_RANGE(unsigned, m, 1, 12);
+	IN_RANGE(unsigned, v, 1, 12);
+	IN_RANGE(unsigned, inter, 1, 0x7fffffffU);
+	const unsigned g = gcd12(inter);
+	ASSERT(g == 1U || g == 2U || g == 3U || g == 4U || g == 6U || g == 12U, "gcd12 returns a divisor of 12");
+	ASSERT(inter % g == 0U, "gcd12(n) divides n");
+	const bool test = ((m + 12U) - v) % g == 0U;	/* evrrul.c: ((m + 12U) - (bm - 1U)) % gcd12(rr->inter), bm - 1 = v */
+	bool reach = false;
+	unsigned cur = m;
+	for (unsigned k = 0U; k < 12U; k++) {
+		reach = reach || cur == v;
+		cur = (cur - 1U + inter % 12U) % 12U + 1U;
+	}
+	ASSERT(test == reach, "the BYMONTH month passes the test iff stepping by INTERVAL months from the start month reaches it");
+	if (inter == 24U && m == v) { SENTINEL("gcd12 interval 24"); }
+	if (!reach) { SENTINEL("gcd12 unreachable month"); }
+	SENTINEL("gcd12");
+}
